@@ -82,6 +82,34 @@ pub fn run(ctx: &Ctx) {
         }
     });
 
+    // every message length 0..=200 for every hash: the genuine message is accepted, the same
+    // message with its last byte (or, if empty, its length) changed is rejected
+    ctx.enumerate("message_length_tamper", 6 * 201 * 2, true, |i| ((i / 402) as u8, ((i % 402) / 2) as u16, (i % 2) as u8), |c: &(u8, u16, u8)| {
+        let h = ALL_HASHES[c.0 as usize];
+        let m = Model::with_overrides(h, &ov);
+        let levels = vec![([8u32, 4][c.1 as usize % 2], 2u32)];
+        let seed = gen::expand(0x7a3, h.n());
+        let mut msg = gen::expand(c.1 as u64 ^ 0x3131, c.1 as usize);
+        let sig = hss::sign(&m, &levels, &seed, (c.1 % 4) as u128, &msg);
+        let pk = hss::public_key(&m, &levels, &seed);
+        let class = if c.2 == 0 {
+            "genuine"
+        } else {
+            if msg.is_empty() {
+                msg.push(0);
+            } else {
+                let l = msg.len();
+                msg[l - 1] ^= 0x01;
+            }
+            "last-byte-changed"
+        };
+        match differential(&m, h, &msg, &sig, &pk, class) {
+            Ok(acc) if acc == (c.2 == 0) => pass(format!("{}|{}", class, h.name()), true),
+            Ok(_) => fail("harness-bug", "model verdict unexpected"),
+            Err((k, e)) => fail(k, format!("{} [message of {} bytes]", e, c.1)),
+        }
+    });
+
     // long messages: the genuine one is accepted, any change in its tail is rejected
     let mut longm: Vec<(u8, u32, u8)> = Vec::new();
     for hi in 0..6u8 {
